@@ -13,9 +13,25 @@ HERE = os.path.dirname(os.path.dirname(os.path.abspath(__file__)))   # the verif
 OUT = sys.argv[2] if len(sys.argv) > 2 else os.path.join(HERE, "lean/CookModel/Gen/Consts.lean")
 
 
-def fail(msg):
-    print(f"gen_consts: {msg}", file=sys.stderr)
-    sys.exit(3)
+LIT = r"([0-9][0-9_]*(?:\.[0-9_]*)?(?:[eE][+-]?[0-9_]+)?)(?:_?f(?:32|64))?"
+unreadable = []
+
+
+def previous():
+    """the committed values, used for an item the scraper cannot find any more (the correspondence run is then the
+    only tie for that item; ./check records it in the evidence)"""
+    vals = {}
+    try:
+        for line in open(OUT):
+            m = re.match(r"def (\w+) : (.+?) := (.+)$", line.rstrip("\n"))
+            if m:
+                vals[m.group(1)] = (m.group(2), m.group(3))
+    except FileNotFoundError:
+        pass
+    return vals
+
+
+PREV = previous()
 
 
 def const(lit):
@@ -26,45 +42,93 @@ def const(lit):
     return f"⟨{r}, 0x{bits:016x}⟩"
 
 
-def grab(path, pattern, what):
-    src = open(f"{REPO}/{path}").read()
-    m = re.search(pattern, src, re.S)
-    if not m:
-        fail(f"cannot find {what} in {path}")
-    return m.group(1)
+def strip_comments(src):
+    src = re.sub(r"/\*.*?\*/", "", src, flags=re.S)
+    return re.sub(r"//[^\n]*", "", src)
+
+
+def grab(path, patterns, what):
+    try:
+        src = strip_comments(open(f"{REPO}/{path}").read())
+    except OSError:
+        return None
+    for pattern in patterns:
+        ms = re.findall(pattern, src, re.S)
+        ms = [m if isinstance(m, str) else m[0] for m in ms]
+        if len(set(ms)) == 1:
+            return ms[0]
+    return None
 
 
 items = []
+
+
+def add(name, ty, val):
+    if val is None:
+        if name in PREV:
+            unreadable.append(name)
+            items.append((name, PREV[name][0], PREV[name][1]))
+        else:
+            print(f"gen_consts: cannot find {name} and there is no committed value", file=sys.stderr)
+            sys.exit(3)
+    else:
+        items.append((name, ty, val))
+
+
+def cmap(f, x):
+    return None if x is None else f(x)
+
+
 q = "src/quantity.rs"
-items.append(("FIX_RATIO", "Const", const(grab(q, r"const FIX_RATIO: f64 = ([0-9eE.+\-_]+);", "FIX_RATIO"))))
-items.append(("APPROX_EPS", "Const", const(grab(q, r"if decimal < ([0-9eE.+\-_]+) \{", "the integer tolerance of new_approx"))))
-den = grab(q, r"const DENOMS: &'static \[u8\] = &\[([0-9, ]+)\];", "DENOMS")
-items.append(("DENOMS", "List Nat", "[" + ", ".join(x.strip() for x in den.split(",") if x.strip()) + "]"))
+# the scale of the fixed-point fraction table: `const FIX_RATIO: f64 = 1e4;` (whatever it is called: the only f64 const of the file)
+add("FIX_RATIO", "Const", cmap(const, grab(q, [r"const FIX_RATIO\s*:\s*f64\s*=\s*" + LIT + r"\s*;", r"const \w+\s*:\s*f64\s*=\s*" + LIT + r"\s*;"], "FIX_RATIO")))
+add("APPROX_EPS", "Const", cmap(const, grab(q, [r"if decimal\s*<\s*" + LIT + r"\s*\{", r"decimal\s*<\s*" + LIT], "the integer tolerance of new_approx")))
+den = grab(q, [r"const DENOMS\s*:\s*&(?:'static\s+)?\[u8\]\s*=\s*&\[([0-9,_\s]+)\]\s*;", r"const \w*DENOM\w*\s*:\s*&(?:'static\s+)?\[u8\]\s*=\s*&\[([0-9,_\s]+)\]\s*;", r"const \w*DENOM\w*\s*:\s*\[u8;\s*\d+\]\s*=\s*\[([0-9,_\s]+)\]\s*;"], "DENOMS")
+add("DENOMS", "List Nat", cmap(lambda d: "[" + ", ".join(str(int(x.strip().replace("_", ""))) for x in d.split(",") if x.strip()) + "]", den))
 c = "src/convert/mod.rs"
-items.append(("BEST_EPS", "Const", const(grab(c, r"norm\s*[<>]=?\s*\(th - ([0-9eE.+\-_]+)\)", "best_unit threshold slack"))))
+add("BEST_EPS", "Const", cmap(const, grab(c, [r"norm\s*[<>]=?\s*\(\s*th\s*-\s*" + LIT + r"\s*\)", r"\(\s*th\s*-\s*" + LIT + r"\s*\)"], "best_unit threshold slack")))
+
+
+def flag_value(src, name, known):
+    """`const NAME = <term> (| <term>)*;` with terms `1 << n`, hex/binary/decimal literals, `Self::X.bits()`"""
+    m = re.search(r"const " + name + r"\s*=\s*([^;]+);", src)
+    if not m:
+        return None
+    v = 0
+    for term in m.group(1).split("|"):
+        t = term.strip().replace("_", "")
+        mm = re.fullmatch(r"1\s*<<\s*(\d+)", t)
+        if mm:
+            v |= 1 << int(mm.group(1)); continue
+        mm = re.fullmatch(r"(0x[0-9a-fA-F]+|0b[01]+|\d+)(?:u\d+)?", t)
+        if mm:
+            v |= int(mm.group(1), 0); continue
+        mm = re.fullmatch(r"Self::(\w+)\.bits\(\)", term.strip())
+        if mm and mm.group(1) in known:
+            v |= known[mm.group(1)]; continue
+        return None
+    return v
+
 
 # extension flag values (src/lib.rs bitflags)
-lib = open(f"{REPO}/src/lib.rs").read()
+try:
+    lib = strip_comments(open(f"{REPO}/src/lib.rs").read())
+except OSError:
+    lib = ""
 ext_vals = {}
 for name in ["COMPONENT_MODIFIERS", "COMPONENT_ALIAS", "ADVANCED_UNITS", "MODES", "INLINE_QUANTITIES",
              "RANGE_VALUES", "TIMER_REQUIRES_TIME", "INTERMEDIATE_PREPARATIONS"]:
-    m = re.search(r"const " + name + r"\s*=\s*1 << (\d+)( \| Self::(\w+)\.bits\(\))?;", lib)
-    if not m:
-        fail(f"cannot find extension flag {name} in src/lib.rs")
-    v = 1 << int(m.group(1))
-    if m.group(3):
-        if m.group(3) not in ext_vals:
-            fail(f"extension flag {name} refers to unknown {m.group(3)}")
-        v |= ext_vals[m.group(3)]
-    ext_vals[name] = v
-    items.append(("EXT_" + name, "Nat", str(v)))
+    v = flag_value(lib, name, ext_vals)
+    if v is not None:
+        ext_vals[name] = v
+    add("EXT_" + name, "Nat", cmap(str, v))
 # modifier flag values (src/parser/model.rs)
-pm = open(f"{REPO}/src/parser/model.rs").read()
+try:
+    pm = strip_comments(open(f"{REPO}/src/parser/model.rs").read())
+except OSError:
+    pm = ""
 for name in ["RECIPE", "REF", "HIDDEN", "OPT", "NEW"]:
-    m = re.search(r"const " + name + r"\s*=\s*1 << (\d+);", pm)
-    if not m:
-        fail(f"cannot find modifier flag {name} in src/parser/model.rs")
-    items.append(("MOD_" + name, "Nat", str(1 << int(m.group(1)))))
+    add("MOD_" + name, "Nat", cmap(str, flag_value(pm, name, {})))
 
 out = ["import CookModel.Basic.Arith",
        "/- GENERATED by /verif/translators/gen_consts.py from /repo sources. Do not edit. -/",
@@ -82,3 +146,5 @@ if old != text:
     print("changed")
 else:
     print("unchanged")
+for name in unreadable:
+    print(f"unreadable:{name}")
